@@ -2,6 +2,7 @@ package lint
 
 import (
 	"fmt"
+	"os"
 	"go/constant"
 	"go/token"
 	"go/types"
@@ -368,9 +369,12 @@ func hasCodecCall(b *ssa.BasicBlock) bool {
 		if call, ok := ins.(*ssa.Call); ok {
 			if cal := call.Call.StaticCallee(); cal != nil {
 				switch cal.String() {
-				case "(*bufio.Reader).ReadByte", "io.ReadFull", "encoding/binary.Write", "(*bytes.Buffer).WriteByte", "(*bytes.Buffer).Write":
+				case "(*bufio.Reader).ReadByte", "(*bytes.Reader).ReadByte", "io.ReadFull", "encoding/binary.Write", "(*bytes.Buffer).WriteByte", "(*bytes.Buffer).Write":
 					return true
 				}
+			}
+			if ap := isAppendCall(call); ap != nil && isPlainByteSlice(ap.Type()) {
+				return true // octets appended to the output
 			}
 		}
 	}
@@ -395,11 +399,14 @@ func (c *Ctx) akaEncodePaths(fn *ssa.Function) (header akaPath, body []akaPath, 
 			return true
 		}
 		if ap := isAppendCall(call); ap != nil && isPlainByteSlice(ap.Type()) {
-			return true
+			if _, isField := fieldKeyOfLoad(ap.Call.Args[0]); !isField {
+				return true
+			}
 		}
 		return false
 	}
 	nEmit := 0
+	var emitting []*loopInfo
 	for _, l := range loops {
 		has := false
 		for b := range l.body {
@@ -410,12 +417,70 @@ func (c *Ctx) akaEncodePaths(fn *ssa.Function) (header akaPath, body []akaPath, 
 			}
 		}
 		if has {
+			emitting = append(emitting, l)
+		}
+	}
+	// the attribute loop is the outermost emitting loop; an emitting loop nested in it (octet-by-octet fill)
+	// is handled as part of one attribute
+	for _, l := range emitting {
+		nested := false
+		for _, o := range emitting {
+			if o != l && o.body[l.header] {
+				nested = true
+			}
+		}
+		if !nested {
 			nEmit++
 			li = l
 		}
 	}
 	if nEmit != 1 {
 		return header, nil, fmt.Errorf("expected one attribute loop that emits octets, found %d (of %d loops)", nEmit, len(loops))
+	}
+	// zeroFill: an inner loop whose only emission is the constant octet 0 (padding written one octet at a time)
+	zeroFill := map[*ssa.BasicBlock]*loopInfo{}
+	for _, l := range emitting {
+		if l == li || !li.body[l.header] {
+			continue
+		}
+		onlyZero := true
+		for b := range l.body {
+			for _, ins := range b.Instrs {
+				call, ok := ins.(*ssa.Call)
+				if !ok || !emits(ins) {
+					continue
+				}
+				ap := isAppendCall(call)
+				if ap == nil {
+					onlyZero = false
+					continue
+				}
+				sl, ok := ap.Call.Args[1].(*ssa.Slice)
+				if !ok {
+					onlyZero = false
+					continue
+				}
+				al, ok := sl.X.(*ssa.Alloc)
+				if !ok {
+					onlyZero = false
+					continue
+				}
+				for _, ref := range *al.Referrers() {
+					if ia, ok := ref.(*ssa.IndexAddr); ok {
+						for _, r2 := range *ia.Referrers() {
+							if st, ok := r2.(*ssa.Store); ok {
+								if k, ok := st.Val.(*ssa.Const); !ok || k.Value == nil || k.Value.ExactString() != "0" {
+									onlyZero = false
+								}
+							}
+						}
+					}
+				}
+			}
+		}
+		if onlyZero {
+			zeroFill[l.header] = l
+		}
 	}
 	tokOf1 := func(ins ssa.Instruction) (akaTok, bool) {
 		call := staticCallTo(valueOf(ins), "encoding/binary.Write")
@@ -503,6 +568,9 @@ func (c *Ctx) akaEncodePaths(fn *ssa.Function) (header akaPath, body []akaPath, 
 			return nil
 		}
 		if ap := isAppendCall(call); ap != nil && isPlainByteSlice(ap.Type()) {
+			if _, isField := fieldKeyOfLoad(ap.Call.Args[0]); isField {
+				return nil // an append onto a field of the message is not an emission
+			}
 			// out = append(out, b0, b1, ...) / append(out, value...) / append(out, make([]byte, pad)...)
 			src := ap.Call.Args[1]
 			pos := c.InstrPos(ins)
@@ -597,7 +665,20 @@ func (c *Ctx) akaEncodePaths(fn *ssa.Function) (header akaPath, body []akaPath, 
 		for _, ins := range cur.Instrs {
 			header.Toks = append(header.Toks, toksOf(ins)...)
 		}
-		next := c.successSucc(cur, nil)
+		// a loop that emits nothing (the key-collecting loop folded into Marshal) is stepped over
+		var next *ssa.BasicBlock
+		for _, l := range loops {
+			if l != li && l.header == cur {
+				for _, sc := range cur.Succs {
+					if !l.body[sc] {
+						next = sc
+					}
+				}
+			}
+		}
+		if next == nil {
+			next = c.successSucc(cur, nil)
+		}
 		if next == nil {
 			return header, nil, fmt.Errorf("cannot follow the header path")
 		}
@@ -606,6 +687,7 @@ func (c *Ctx) akaEncodePaths(fn *ssa.Function) (header akaPath, body []akaPath, 
 	header.Label = "header"
 	header.Toks = mergeOctetToks(header.Toks)
 	// loop body: paths from the header's body successor back to the header
+	var pathOrder []*ssa.BasicBlock // blocks of the path being walked, in order
 	var walk func(b *ssa.BasicBlock, toks []akaTok, label []string, visited map[*ssa.BasicBlock]bool, depth int)
 	walk = func(b *ssa.BasicBlock, toks []akaTok, label []string, visited map[*ssa.BasicBlock]bool, depth int) {
 		if depth > 200 {
@@ -620,6 +702,19 @@ func (c *Ctx) akaEncodePaths(fn *ssa.Function) (header akaPath, body []akaPath, 
 		}
 		visited = copyVisited(visited)
 		visited[b] = true
+		pathOrder = append(pathOrder[:depth-1:depth-1], b)
+		if zl, ok := zeroFill[b]; ok {
+			// the fill loop as a whole is one run of padding octets; go on behind it
+			// (it may run zero times: both variants are paths of the encoder)
+			padded := append(append([]akaTok(nil), toks...), akaTok{W: "v", To: "pad", Pos: c.InstrPos(b.Instrs[len(b.Instrs)-1])})
+			for _, sc := range b.Succs {
+				if !zl.body[sc] {
+					walk(sc, padded, append(append([]string(nil), label...), "optT"), visited, depth+1)
+					walk(sc, toks, append(append([]string(nil), label...), "optF"), visited, depth+1)
+				}
+			}
+			return
+		}
 		for _, ins := range b.Instrs {
 			if ts := toksOf(ins); len(ts) > 0 {
 				toks = append(append([]akaTok(nil), toks...), ts...)
@@ -650,9 +745,26 @@ func (c *Ctx) akaEncodePaths(fn *ssa.Function) (header akaPath, body []akaPath, 
 			walk(next, toks, label, visited, depth+1)
 			return
 		}
+		// a test on a value that an earlier branch of this very path fixed (a helper result φ(2, 4) selected by
+		// the attribute type, compared with a constant later on): only the consistent side continues the path
+		if tv, ok := condOnPath(iff.Cond, pathOrder[:depth]); ok {
+			if tv {
+				walk(b.Succs[0], toks, label, visited, depth+1)
+			} else {
+				walk(b.Succs[1], toks, label, visited, depth+1)
+			}
+			return
+		}
 		walk(b.Succs[0], toks, append(append([]string(nil), label...), "optT"), visited, depth+1)
 		walk(b.Succs[1], toks, append(append([]string(nil), label...), "optF"), visited, depth+1)
 	}
+	defer func() {
+		if os.Getenv("IKELINT_DEBUG_AKA") != "" {
+			for _, p := range body {
+				fmt.Fprintf(os.Stderr, "enc path %-30s %s\n", p.Label, toksString(p.Toks))
+			}
+		}
+	}()
 	for _, s := range li.header.Succs {
 		if li.body[s] {
 			walk(s, nil, nil, map[*ssa.BasicBlock]bool{}, 1)
@@ -1423,4 +1535,68 @@ func isPlainByteSlice(t types.Type) bool {
 	}
 	b, ok := st.Elem().(*types.Basic)
 	return ok && (b.Kind() == types.Uint8 || b.Kind() == types.Byte)
+}
+
+
+// condOnPath evaluates a comparison between constants and φ-nodes of constants along one concrete path
+// (the φ takes the edge of the block that precedes its own block on the path).
+func condOnPath(cond ssa.Value, path []*ssa.BasicBlock) (bool, bool) {
+	bo, ok := cond.(*ssa.BinOp)
+	if !ok {
+		return false, false
+	}
+	val := func(v ssa.Value) (int64, bool) {
+		for i := 0; i < 4; i++ {
+			switch x := v.(type) {
+			case *ssa.Convert:
+				v = x.X
+				continue
+			case *ssa.ChangeType:
+				v = x.X
+				continue
+			}
+			break
+		}
+		switch x := v.(type) {
+		case *ssa.Const:
+			if x.Value == nil || x.Value.Kind() != constant.Int {
+				return 0, false
+			}
+			return constInt64(x.Value)
+		case *ssa.Phi:
+			for pi, b := range path {
+				if b != x.Block() || pi == 0 {
+					continue
+				}
+				for ei, p := range x.Block().Preds {
+					if p == path[pi-1] {
+						if k, ok := x.Edges[ei].(*ssa.Const); ok && k.Value != nil && k.Value.Kind() == constant.Int {
+							return constInt64(k.Value)
+						}
+					}
+				}
+			}
+		}
+		return 0, false
+	}
+	a, ok1 := val(bo.X)
+	b, ok2 := val(bo.Y)
+	if !ok1 || !ok2 {
+		return false, false
+	}
+	switch bo.Op {
+	case token.EQL:
+		return a == b, true
+	case token.NEQ:
+		return a != b, true
+	case token.LSS:
+		return a < b, true
+	case token.LEQ:
+		return a <= b, true
+	case token.GTR:
+		return a > b, true
+	case token.GEQ:
+		return a >= b, true
+	}
+	return false, false
 }
